@@ -16,7 +16,7 @@ CHECKS = {
          "Receive-side crash outcomes (KeyError/OutOfFuel) are excluded by the C09/C05 theorems, not here.",
          "machine-checked proof in Coq (case analysis over the step function, induction over message lists) + history correspondence + trace monitor"),
  "C09": ("proof", "Coq theorems: accepted client requests return the counter value (positive, fresh, consecutive, and the id inside the queued encoding); nothing else moves the counter; under the id invariant a response is accepted iff its id is outstanding, never KeyError; request-type messages and unknown ids are protocol errors; a search stays until SearchResultDone, everything else retires on its first response.",
-         "The id invariant (searches subset of outstanding, ids below the counter) is proved for the initial state and used as a hypothesis of the per-step theorems; its preservation along whole histories is exercised by the correspondence only.",
+         "The part of the id invariant that the response bookkeeping needs (search ids are outstanding ids) is proved for every reachable state; the numeric part (ids below the counter) is proved initially and used as a hypothesis of the freshness statement.",
          "machine-checked proof in Coq + client-history correspondence + independent in-progress bookkeeping oracle"),
  "C10": ("proof", "Coq theorems: a call refused with LDAPError leaves the outgoing stream unchanged; a well-typed send call ends only in success or LDAPError; an accepted server response has an outstanding id, a final one retires it, and any response to a non-outstanding id is refused without wire effect.",
          "Argument errors (lone surrogates in str arguments, invalid enum values) are outside the claim.",
@@ -47,6 +47,18 @@ CHECKS.update({
  "C17": other("Sentences of the three RFC 4512 grammars with all spacing / list-form / escape-case choices, plus mutated strings for the totality clause.", "grammar-sentence generation + reference parser + model/implementation correspondence"),
  "C18": other("Adversarial input families for every parser and for receive are timed at doubling sizes (absolute and growth thresholds); the regular expressions are regenerated from the source on every run.", "CPU-time growth measurement on adversarial families (polynomial path-count certificate theorem pending)"),
  "C19": other("Pairs of session histories run interleaved and alone must give identical transcripts; custom control / filter / credential registration is exercised with distinct type sets per session.", "interleaved-vs-isolated transcript comparison + registration oracle + two independent model instances"),
+})
+
+CHECKS.update({
+ "C02": ("proof", "Coq theorem over the Gallina model of receive (both code paths) and of the whole decoder: for any byte stream whose single delivery succeeds from any open state, and any partition into chunks, the chunked delivery succeeds with the same messages in the same order and the same final session state. Proved from prefix-stability of the header reader and of unpack_message, parser fuel irrelevance and sequential message processing. Chunked vs single delivery is also compared on the implementation and against the extracted model.",
+         "The 'returned values are self-contained' clause (aliasing of the caller's buffer) cannot be expressed in Gallina (values cannot alias): it is checked on the implementation only, by overwriting the input bytearray after each call. Streams whose single delivery raises are covered by the correspondence only.",
+         "machine-checked proof in Coq (induction over the parse, prefix-stability lemmas) + chunked-delivery correspondence + aliasing experiment"),
+ "C05": ("proof", "Coq theorems: in every state reachable by any history of calls, for every byte string and recursion budget, receive returns messages or raises ProtocolError (no IndexError/KeyError/RecursionError/exhausted loop: all loops of the decoder are shown to make progress, the bookkeeping invariant 'search ids are outstanding' is shown to hold in every reachable state); after a ProtocolError the state is CLOSED and every later delivery is refused without effect.",
+         "The bytes attached to the error (notice of disconnection / unbind) are classified only abstractly in the model (their diagnostic text is opaque); their well-formedness is judged on the implementation by the oracle (one known finding: unbind constructed bit). Exception classes the model has no constructor for (MemoryError, a TypeError introduced by a future edit) are visible only to the malformed-stream correspondence.",
+         "machine-checked proof in Coq (progress/termination lemmas for every decoder loop, invariant over histories) + malformed-stream correspondence + fail-closed oracle"),
+ "C06": ("proof", "Coq theorem: an independent framer (identifier and length octets only, written from X.690) is defined and proved to agree with the header reader; in every error-free receive from any open state the messages returned are exactly the complete units of (held-back octets ++ new data) and only a genuinely incomplete unit is held back.",
+         "none beyond the common trusted base",
+         "machine-checked proof in Coq (framer/reader agreement, induction over the stream parser) + independent Python framer oracle on damaged-interior streams"),
 })
 
 def main():
